@@ -1,6 +1,358 @@
-use crate::worker::Ctx;
+//! C07: every torn write of the build log.  For each history, the last build
+//! is re-run once per (db write index, number of bytes persisted): the write
+//! persists only that prefix and the n2 "process" dies.  The following
+//! invocation must start normally, rebuild exactly what lost its record, and
+//! leave a log every later invocation can load; optionally a second crash is
+//! injected into the recovery invocation.
+
+use crate::eng_hist::{self, apply_edit, initial, judge, run_once_fault, EditOp, Node, Template};
+use crate::exec::{self, BuildResult, Event, Term};
+use crate::sim::Sim;
+use crate::worker::{Ctx, Tier};
+use serde_json::{json, Value};
 use vcore::report::ShardResult;
 
-pub fn run(_ctx: &mut Ctx) -> ShardResult {
-    unimplemented!("engine crash")
+pub fn jobs(tier: Tier) -> Vec<(String, u64)> {
+    let depth = tier.pick(1, 2);
+    let mut v = Vec::new();
+    for h in 0..histories().len() {
+        v.push((format!("crash:{}:{}", h, depth), 16));
+    }
+    v
+}
+
+pub struct History {
+    pub template: &'static str,
+    /// Rounds before the crashing build: edits then a full build.
+    pub prefix: Vec<Vec<EditOp>>,
+    /// Edits right before the crashing build.
+    pub last_edits: Vec<EditOp>,
+    pub j: usize,
+}
+
+pub fn histories() -> Vec<History> {
+    vec![
+        // h1: first build of a fresh tree (log is created)
+        History { template: "depfile-chain", prefix: vec![], last_edits: vec![], j: 1 },
+        History { template: "two-outputs", prefix: vec![], last_edits: vec![], j: 2 },
+        // h2: build, touch, rebuild (appending to a loaded log)
+        History { template: "depfile-chain", prefix: vec![vec![]], last_edits: vec![EditOp::Touch("src.c".into())], j: 1 },
+        History { template: "two-outputs", prefix: vec![vec![]], last_edits: vec![EditOp::Touch("p.in".into())], j: 1 },
+        // h3: build, manifest edit that renumbers files and steps, rebuild
+        History { template: "depfile-chain", prefix: vec![vec![]], last_edits: vec![EditOp::Variant(2), EditOp::Touch("hdr.h".into())], j: 1 },
+        History { template: "two-outputs", prefix: vec![vec![]], last_edits: vec![EditOp::Variant(1)], j: 1 },
+        // h4: new discovered dependency gets a path record in the same build
+        History { template: "depfile-chain", prefix: vec![vec![]], last_edits: vec![EditOp::Reports("obj".into(), vec!["hdr.h".into(), "hdr2.h".into()])], j: 1 },
+        // h5: three builds, the log has superseded records
+        History { template: "diamond", prefix: vec![vec![], vec![EditOp::Touch("a.in".into())]], last_edits: vec![EditOp::Touch("b.in".into()), EditOp::Touch("c.in".into())], j: 2 },
+    ]
+}
+
+struct WriteInfo {
+    len: usize,
+    /// Index of the last write issued for the same finished command.
+    group_last: usize,
+    /// Command whose completion caused this write (None: log creation).
+    cmd: Option<String>,
+}
+
+fn writes_of(trace: &[Event]) -> Vec<WriteInfo> {
+    let mut out: Vec<WriteInfo> = Vec::new();
+    let mut cur_cmd: Option<String> = None;
+    let mut group_start = 0usize;
+    for ev in trace {
+        match ev {
+            Event::Finished { build, term } => {
+                // close the previous group
+                let last = out.len().saturating_sub(1);
+                for w in out.iter_mut().skip(group_start) {
+                    w.group_last = last;
+                }
+                group_start = out.len();
+                cur_cmd = if *term == Term::Success {
+                    trace.iter().find_map(|x| match x {
+                        Event::Start { build: b, cmdline } if b == build => Some(cmdline.clone()),
+                        _ => None,
+                    })
+                } else {
+                    None
+                };
+            }
+            Event::DbWrite { len, .. } => out.push(WriteInfo {
+                len: *len,
+                group_last: 0,
+                cmd: cur_cmd.clone(),
+            }),
+            _ => {}
+        }
+    }
+    let last = out.len().saturating_sub(1);
+    for w in out.iter_mut().skip(group_start) {
+        w.group_last = last;
+    }
+    out
+}
+
+/// After a crash at write `i` persisting `k` bytes: the model forgets the
+/// record of the command whose completion was being logged, unless its
+/// record (the last write of the group) was persisted completely.
+fn correct_model(sim: &mut Sim, writes: &[WriteInfo], i: usize, k: usize) {
+    let w = &writes[i];
+    if let Some(cmd) = &w.cmd {
+        let complete = i == w.group_last && k >= w.len;
+        if !complete {
+            // The model appended the record when the command finished.
+            let p = sim.project().clone();
+            if let Some(step) = p.step_by_cmdline(cmd) {
+                let outs: Vec<String> = p.steps[step].all_outs().cloned().collect();
+                if let Some(pos) = sim.model.log.iter().rposition(|r| r.outs == outs) {
+                    sim.model.log.remove(pos);
+                }
+            }
+        }
+    }
+}
+
+fn describe(h: usize, i: usize, k: usize, second: Option<(usize, usize)>) -> Value {
+    json!({"history": h, "write": i, "bytes": k, "second": second.map(|s| json!([s.0, s.1]))})
+}
+
+struct Crasher<'a> {
+    t: &'a Template,
+    job: String,
+    h: usize,
+    res: &'a mut ShardResult,
+}
+
+impl<'a> Crasher<'a> {
+    fn fail(&mut self, key: &str, detail: String, i: usize, k: usize, second: Option<(usize, usize)>) {
+        let job = self.job.clone();
+        let h = self.h;
+        self.res.violation(key, || detail, || json!({"job": job, "case": describe(h, i, k, second)}));
+    }
+
+    /// Recovery after a crash: the state `sim` (already corrected) on disk.
+    /// Returns the state after recovery if everything held.
+    fn recover(&mut self, sim: &Sim, j: usize, i: usize, k: usize, second: Option<(usize, usize)>, what: &str) -> Option<Sim> {
+        // What n2 loads must be what the model says survived.
+        let t = self.t;
+        let manifest = t.manifest_name.clone();
+        match crate::worker::catch(|| n2::verif::load_disk(&manifest)) {
+            Err(p) => {
+                self.fail(&p.key(), format!("{}: loading after the crash panicked: {} at {}", what, p.message, p.location), i, k, second);
+                return None;
+            }
+            Ok(Err(e)) => {
+                self.fail("log-unloadable-after-crash", format!("{}: the next invocation cannot start: {}", what, e), i, k, second);
+                return None;
+            }
+            Ok(Ok((dump, hashes))) => {
+                let p = sim.project();
+                for (bi, b) in dump.builds.iter().enumerate() {
+                    let Some(step) = p.steps.iter().position(|s| s.all_outs().cloned().collect::<Vec<_>>() == b.outs) else {
+                        continue;
+                    };
+                    if p.steps[step].phony {
+                        continue;
+                    }
+                    let survived = sim.model.attached(p, step);
+                    match (survived, hashes[bi]) {
+                        (Some(rec), Some(_)) => {
+                            if rec.deps != b.discovered_ins {
+                                self.fail(
+                                    "surviving-record-with-other-content",
+                                    format!("{}: step {} was recorded with dependencies {:?}, the loaded record has {:?}", what, b.outs[0], rec.deps, b.discovered_ins),
+                                    i,
+                                    k,
+                                    second,
+                                );
+                                return None;
+                            }
+                        }
+                        (None, None) => {}
+                        (Some(_), None) => {
+                            self.fail("intact-record-lost", format!("{}: the record of {} was written completely before the crash but is not loaded", what, b.outs[0]), i, k, second);
+                            return None;
+                        }
+                        (None, Some(_)) => {
+                            self.fail("record-attributed-to-wrong-step", format!("{}: {} has a loaded record although none survived for it", what, b.outs[0]), i, k, second);
+                            return None;
+                        }
+                    }
+                }
+            }
+        }
+        let (run, _) = run_once_fault(t, sim.clone(), &[], j, None, false, vec![], None, None);
+        self.res.evaluations += 1;
+        self.res.transitions += 1;
+        let f = judge(t, sim, &run, &[], true, false);
+        if !f.is_empty() {
+            for (key, d) in f {
+                self.fail(&format!("recovery:{}", key), format!("{}: {}", what, d), i, k, second);
+            }
+            return None;
+        }
+        // And the log it leaves is loadable: a third invocation does nothing.
+        let (run3, _) = run_once_fault(t, run.sim.clone(), &[], j, None, false, vec![], None, None);
+        self.res.evaluations += 1;
+        match &run3.result {
+            BuildResult::Success(0) => {}
+            other => {
+                self.fail("third-invocation-not-a-no-op", format!("{}: after recovery another invocation gave {:?} and ran {:?}", what, other, run3.sim.ran.iter().skip(run.sim.ran.len()).map(|r| r.cmdline.clone()).collect::<Vec<_>>()), i, k, second);
+                return None;
+            }
+        }
+        Some(run.sim)
+    }
+}
+
+pub fn run(ctx: &mut Ctx) -> ShardResult {
+    let mut res = ShardResult::default();
+    exec::install_hooks();
+    let job = ctx.job.clone();
+    let parts: Vec<&str> = job.split(':').collect();
+    let h: usize = parts[1].parse().expect("history");
+    let depth: usize = parts[2].parse().expect("depth");
+    let hs = histories();
+    let hist = &hs[h];
+    let all = eng_hist::templates();
+    let t = all.iter().find(|t| t.name == hist.template).expect("template");
+
+    // Build the state before the crashing invocation.
+    let mut node: Node = initial(t);
+    for edits in &hist.prefix {
+        for op in edits {
+            apply_edit(t, &mut node, op);
+        }
+        let (run, _) = run_once_fault(t, node.sim.clone(), &[], 1, None, false, vec![], None, None);
+        if !matches!(run.result, BuildResult::Success(_)) {
+            res.violation("machinery:prefix-build-failed", || format!("{:?}", run.result), || json!({"job": job}));
+            return res;
+        }
+        node.sim = run.sim;
+        let last = node.sim.project().clone();
+        node.sim.projects = vec![last];
+    }
+    for op in &hist.last_edits {
+        apply_edit(t, &mut node, op);
+    }
+    node.snap = exec::snapshot();
+    let before = node.sim.clone();
+
+    // Baseline: the crashing build without a crash, to learn its writes.
+    let (base, _) = run_once_fault(t, before.clone(), &[], hist.j, None, false, vec![], None, None);
+    let writes = writes_of(&base.trace);
+    if writes.is_empty() {
+        res.violation("machinery:no-db-writes", || "baseline build wrote nothing".into(), || json!({"job": job}));
+        return res;
+    }
+    res.count("db_writes_in_history", writes.len() as u64);
+
+    let replay_case = ctx.replay.as_ref().map(|c| c["case"].clone());
+    let mut cr = Crasher {
+        t,
+        job: job.clone(),
+        h,
+        res: &mut res,
+    };
+    let mut idx = 0u64;
+    for i in 0..writes.len() {
+        for k in 0..=writes[i].len {
+            idx += 1;
+            match &replay_case {
+                Some(c) => {
+                    if c["write"].as_u64() != Some(i as u64) || c["bytes"].as_u64() != Some(k as u64) {
+                        continue;
+                    }
+                }
+                None => {
+                    if idx % ctx.nshards != ctx.shard {
+                        continue;
+                    }
+                }
+            }
+            ctx.marker.set(idx, format!("h{} write {} bytes {}", h, i, k).as_bytes());
+            exec::restore(&node.snap);
+            let (crashed, _) = run_once_fault(t, before.clone(), &[], hist.j, None, false, vec![], None, Some((i, k)));
+            cr.res.evaluations += 1;
+            cr.res.states += 1;
+            cr.res.transitions += 1;
+            match &crashed.result {
+                BuildResult::Crashed => {}
+                other => {
+                    cr.fail("machinery:crash-did-not-happen", format!("fault ({}, {}) did not stop the build: {:?}", i, k, other), i, k, None);
+                    continue;
+                }
+            }
+            let mut sim = crashed.sim;
+            correct_model(&mut sim, &writes, i, k);
+            let after_crash = exec::snapshot();
+            cr.res.outcome(if k == 0 {
+                "nothing-of-the-write-persisted"
+            } else if k == writes[i].len {
+                "whole-write-persisted"
+            } else if k == 1 {
+                "one-byte-persisted"
+            } else {
+                "partial-write-persisted"
+            });
+            let what = format!("crash at write {} ({} of {} bytes, logging {:?})", i, k, writes[i].len, writes[i].cmd);
+            let want_second: Option<Option<(usize, usize)>> = replay_case.as_ref().map(|c| {
+                c["second"].as_array().map(|a| (a[0].as_u64().unwrap_or(0) as usize, a[1].as_u64().unwrap_or(0) as usize))
+            });
+            if want_second.map(|s| s.is_none()).unwrap_or(true) {
+                if cr.recover(&sim, hist.j, i, k, None, &what).is_some() {
+                    cr.res.nontrivial += 1;
+                }
+            }
+            if depth >= 2 || want_second.map(|s| s.is_some()).unwrap_or(false) {
+                // Second crash during the recovery invocation.
+                exec::restore(&after_crash);
+                let (rec_base, _) = run_once_fault(t, sim.clone(), &[], hist.j, None, false, vec![], None, None);
+                let w2 = writes_of(&rec_base.trace);
+                for i2 in 0..w2.len() {
+                    // every byte count is explored for the first crash; for the
+                    // second one the boundary counts of each write.
+                    let mut ks: Vec<usize> = vec![0, 1, 2, 3, w2[i2].len / 2, w2[i2].len.saturating_sub(1), w2[i2].len];
+                    ks.sort();
+                    ks.dedup();
+                    for k2 in ks {
+                        if k2 > w2[i2].len {
+                            continue;
+                        }
+                        if let Some(Some(s)) = want_second {
+                            if s != (i2, k2) {
+                                continue;
+                            }
+                        }
+                        exec::restore(&after_crash);
+                        let (crashed2, _) = run_once_fault(t, sim.clone(), &[], hist.j, None, false, vec![], None, Some((i2, k2)));
+                        cr.res.evaluations += 1;
+                        cr.res.states += 1;
+                        if !matches!(crashed2.result, BuildResult::Crashed) {
+                            match &crashed2.result {
+                                BuildResult::Error(e) => cr.fail("log-unloadable-after-crash", format!("{}: the recovery invocation cannot start: {}", what, e), i, k, Some((i2, k2))),
+                                other => cr.fail("machinery:crash-did-not-happen", format!("second fault ({}, {}) did not stop the recovery build: {:?}", i2, k2, other), i, k, Some((i2, k2))),
+                            }
+                            continue;
+                        }
+                        let mut sim2 = crashed2.sim;
+                        correct_model(&mut sim2, &w2, i2, k2);
+                        let what2 = format!("{}; then crash of the recovery build at write {} ({} of {} bytes)", what, i2, k2, w2[i2].len);
+                        if cr.recover(&sim2, hist.j, i, k, Some((i2, k2)), &what2).is_some() {
+                            cr.res.nontrivial += 1;
+                        }
+                    }
+                }
+            }
+            if idx % 37 == 0 {
+                cr.res.sample(|| json!({"history": h, "template": hist.template, "crash": what}));
+            }
+        }
+    }
+    res
+}
+
+pub fn case_from_marker(job: &str, bytes: &[u8]) -> Value {
+    json!({"job": job, "marker": String::from_utf8_lossy(bytes)})
 }
